@@ -175,6 +175,15 @@ impl AsmParser {
         })
     }
 
+    /// Number the next statement `line` (counting from 1), instead of starting at the first
+    /// statement of a program.
+    ///
+    /// Used to evaluate a single instruction as if it were the statement at some address.
+    pub fn at_line(mut self, line: u16) -> Self {
+        self.line = line;
+        self
+    }
+
     fn get_span(&self, span: Span) -> &str {
         &self.src[span.offs()..span.end()]
     }
